@@ -654,7 +654,7 @@ func (c *Client) Start() (addr net.Addr, err error) {
 		cmd = exec.Command("")
 	}
 	if !c.config.SkipHostEnv {
-		cmd.Env = append(cmd.Env, os.Environ()...)
+		cmd.Env = append(cmd.Env, hostEnv()...)
 	}
 	cmd.Env = append(cmd.Env, env...)
 	cmd.Stdin = os.Stdin
@@ -946,6 +946,22 @@ func (c *Client) Start() (addr net.Addr, err error) {
 
 	c.address = addr
 	return
+}
+
+// hostEnv returns the host's environment without the variables that go-plugin
+// itself sets only when a feature is requested. A host that was launched as a
+// plugin has them in its own environment; passing them on would make its
+// plugins negotiate AutoMTLS or gRPC broker multiplexing that this client did
+// not ask for.
+func hostEnv() []string {
+	var env []string
+	for _, kv := range os.Environ() {
+		if strings.HasPrefix(kv, "PLUGIN_CLIENT_CERT=") || strings.HasPrefix(kv, envMultiplexGRPC+"=") {
+			continue
+		}
+		env = append(env, kv)
+	}
+	return env
 }
 
 // loadServerCert is used by AutoMTLS to read an x.509 cert returned by the
